@@ -21,7 +21,10 @@ import (
 //   map-full   as arr-full with n in {0,1,3,4,5,6,12}, {4,5,6} and {4,5,6}
 //   map-plus   `+` on maps WITH A HISTORY: every history of <= 4 operations (n = 5; <= 3 on n = 4, <= 2 on n = 6; thorough one more) from
 //              grow by index assignment, shrink by del, a + {existing key}, a + {smaller key, existing key}, a + {}, {} + a,
-//              a = a + {new key}, and writes / deletes through the result — the left operand is observed after every step
+//              and writes / deletes through the result — the left operand is observed after every step
+//   map-rest   rest / slices of maps with a history: every history of <= 4 operations (n = 5; <= 2 on n = 7; thorough one more) from
+//              grow by two index assignments (spare capacity), r = rest(a), r = a[1:6] (more than 4 pairs: a BigMap), insert at the
+//              front / in the middle of r, delete from r, overwrite in r, write to a afterwards — a AND r observed after every step
 //   random     long histories (10..30 operations) over both vocabularies with the bindings permuted, literals of random
 //              size rebound in the middle, growth and shrinking across both thresholds in both directions
 
@@ -63,9 +66,9 @@ var arrOps = []string{
 	"b = a + 51",
 	"c = a + 52",
 	"c = b",
-	"b = a[1:]",
 	"a = a + 10",
 	// full vocabulary
+	"b = a[1:]",
 	"c[-1] = 97",
 	"b = rest(a)",
 	"c = [a, a]",
@@ -81,9 +84,10 @@ var arrOps = []string{
 	"func(){a[0] = 3}()",
 	"c = a + []",
 	"c = [] + a",
+	"b = a[0:9]",
 }
 
-const arrCore = 9
+const arrCore = 8
 
 var mapOps = []string{
 	"b = a",
@@ -112,9 +116,24 @@ var mapOps = []string{
 	"c = {} + a",
 	"a[100] = 6",
 	"b = a + {-1:0,1:100}",
+	"b = a[1:6]",
+	"b[100] = 1",
 }
 
 const mapCore = 8
+
+// rest() and slices of maps with a history: the result owns its pairs (repo fix f3e622e), whatever spare capacity the
+// source has; inserting into / deleting from the result must leave the source alone and vice versa
+var mapRestOps = []string{
+	"a[6] = 6; a[7] = 7",
+	"r = rest(a)",
+	"r = a[1:6]",
+	"r[0] = 100",
+	"r[100] = 1",
+	"del(r[2])",
+	"r[3] = 33",
+	"a[2] = 22",
+}
 
 // `+` on maps with a history (spare capacity after growth by index assignment or after del), overlapping and
 // smaller keys, empty operands, followed by writes through the result: the operands must not change
@@ -127,7 +146,6 @@ var mapPlusOps = []string{
 	"b = {} + a",
 	"b[1] = 33",
 	"del(b[2])",
-	"a = a + {200:1}",
 }
 
 func valuesCase(texts []string) string {
@@ -170,7 +188,11 @@ func valuesGen(tier string, r *rng, emit func(string)) {
 		{"a = " + vsMapLit(4, 1), "b = a", "b.k = 99", "del(b[0])"},
 		{"a = " + vsArrLit(9, 1), "a = a + 10", "b = a + 11", "c = a + 12"},
 		{"a = " + vsArrLit(7, 1), "a = a + 10", "b = a + 11", "c = a + 12"},
+		{"a = " + vsArrLit(20, 1), "r = a[2:12]", "r = r + 99"},
+		{"a = " + vsArrLit(9, 1), "a = a + 10", "r = rest(a)", "r = r + 99", "s = a[0:9]", "t = s + 77"},
 		{"k = {1:1,2:2,3:3,4:4,5:5}", "k[6] = 6", "j = k + {1:100,0:0}"},
+		{"m = {1:1,2:2,3:3,4:4,5:5}", "m[6] = 6", "m[7] = 7", "r = rest(m)", "r[0] = 100"},
+		{"m = {1:1,2:2,3:3,4:4,5:5}", "m[6] = 6", "m[7] = 7", "r = m[1:6]", "r[0] = 100", "del(r[3])"},
 		{"big = {1:1,2:2,3:3,4:4,5:5,6:6}", "acc = {}", "acc = acc + big", "acc[1] = 42", "del(acc[2])", "cp = big + {}", "cp[3] = 33"},
 	} {
 		emit(valuesCase(h))
@@ -198,6 +220,8 @@ func valuesGen(tier string, r *rng, emit func(string)) {
 	valuesExhaustive([]string{"a = " + vsMapLit(5, 1)}, mapPlusOps, plusLen, emit)
 	valuesExhaustive([]string{"a = " + vsMapLit(4, 1)}, mapPlusOps, plusLen-1, emit)
 	valuesExhaustive([]string{"a = " + vsMapLit(6, 1)}, mapPlusOps, plusLen-2, emit)
+	valuesExhaustive([]string{"a = " + vsMapLit(5, 1)}, mapRestOps, plusLen, emit)
+	valuesExhaustive([]string{"a = " + vsMapLit(7, 1)}, mapRestOps, plusLen-2, emit)
 	if thorough {
 		for _, n := range []int{8, 9, 10} {
 			valuesExhaustive([]string{valuesPrelude, "a = " + vsArrLit(n, 1)}, arrOps, 3, emit)
